@@ -95,3 +95,49 @@ def mutate(rng, b):
     elif k == 4: b = b[:i]
     else: b[i] = (b[i] & 0xe0) | rng.choice([24, 25, 26, 27, 28, 31, 0, 23])
     return bytes(b)
+
+# ---- exhaustive small item trees (abstract syntax) ----
+# tree := ("u", n) | ("n", n) | ("b", bytes) | ("t", bytes) | ("bi", [bytes..]) | ("ti", [bytes..]) | ("s", n) | ("f", width, bits)
+#       | ("a", [tree..]) | ("ai", [tree..]) | ("m", [tree..]) (even) | ("mi", [tree..]) | ("g", tagno, tree)
+LEAVES = [("u", 0), ("u", 24), ("n", 0), ("n", 255), ("b", b""), ("b", b"\x01"), ("t", b"a"), ("t", b"\xc3\xa9"),
+          ("bi", []), ("bi", [b"\x01", b""]), ("ti", [b"a", b"bc"]), ("s", 20), ("s", 22), ("s", 16), ("s", 255),
+          ("f", 2, 0x3c00), ("f", 4, 0x3f800000), ("f", 8, 0x3ff0000000000000)]
+
+def enum_trees(nodes, leaves=LEAVES):
+    """All trees with exactly `nodes` nodes (containers and tags count 1, leaves 1)."""
+    if nodes == 1:
+        for l in leaves: yield l
+        for k in ("a", "ai", "m", "mi"): yield (k, [])
+        return
+    def seqs(total, parts):
+        if parts == 0:
+            if total == 0: yield []
+            return
+        for first in range(1, total - parts + 2):
+            for t in enum_trees(first, leaves):
+                for rest in seqs(total - first, parts - 1):
+                    yield [t] + rest
+    for t in enum_trees(nodes - 1, leaves): yield ("g", 1, t)
+    for parts in range(1, nodes):
+        for s in seqs(nodes - 1, parts):
+            yield ("a", s); yield ("ai", s)
+            if parts % 2 == 0: yield ("m", s); yield ("mi", s)
+
+def ser_tree(t, pick=None):
+    """pick(n) -> width for a head with argument n (None = minimal)."""
+    def hd(mt, n): return head(mt, n, pick(n) if pick else None)
+    k = t[0]
+    if k == "u": return hd(0, t[1])
+    if k == "n": return hd(1, t[1])
+    if k == "b": return hd(2, len(t[1])) + t[1]
+    if k == "t": return hd(3, len(t[1])) + t[1]
+    if k == "bi": return b"\x5f" + b"".join(hd(2, len(c)) + c for c in t[1]) + b"\xff"
+    if k == "ti": return b"\x7f" + b"".join(hd(3, len(c)) + c for c in t[1]) + b"\xff"
+    if k == "s": return bytes([0xe0 + t[1]]) if t[1] < 24 else bytes([0xf8, t[1]])
+    if k == "f": return bytes([{2: 0xf9, 4: 0xfa, 8: 0xfb}[t[1]]]) + t[2].to_bytes(t[1], "big")
+    if k == "a": return hd(4, len(t[1])) + b"".join(ser_tree(x, pick) for x in t[1])
+    if k == "ai": return b"\x9f" + b"".join(ser_tree(x, pick) for x in t[1]) + b"\xff"
+    if k == "m": return hd(5, len(t[1]) // 2) + b"".join(ser_tree(x, pick) for x in t[1])
+    if k == "mi": return b"\xbf" + b"".join(ser_tree(x, pick) for x in t[1]) + b"\xff"
+    if k == "g": return hd(6, t[1]) + ser_tree(t[2], pick)
+    raise ValueError(t)
